@@ -193,7 +193,15 @@ func MannWhitneyUTest(x1, x2 []float64, alt LocationHypothesis) (*MannWhitneyUTe
 			p = dist.CDF(U1)
 
 		case LocationGreater:
-			p = 1 - dist.CDF(U1-1)
+			// P(U >= U1) equals P(U <= U2) for the reflected
+			// samples (all values negated), whose tie vector
+			// is T reversed. (With ties U moves in steps of
+			// 1/2, so this is not 1 - CDF(U1-1).)
+			Trev := make([]int, len(T))
+			for i, t := range T {
+				Trev[len(T)-1-i] = t
+			}
+			p = UDist{N1: n1, N2: n2, T: Trev}.CDF(U2)
 		}
 	} else {
 		// Use normal approximation (with tie and continuity
